@@ -79,6 +79,50 @@ def Input.len : Input → Nat
   | .otherArr n => n
   | .scalarArr _ => 1     -- never read: `len()` of a 0-d array raises before anything else
 
+/-! ## Declaration of an enumeration, with aliases (`Enum.__init__`, `EnumType.__new__`)
+
+A class body binds names to values, in order.  A name bound to a value that an earlier name is
+already bound to is an ALIAS: it creates no member, `cls[alias]` is the earlier (canonical)
+member.  Python's `EnumType` keeps the canonical names in `_member_names_` and all names in
+`__members__`; `Enum.__init__` runs when a member is created and sets
+`self.index = len(self._member_names_)`; `EnumType.__new__` of this package then builds
+`names = _member_names_`, `indices = arange(len(cls))`, `enums = list(cls)` (canonical members
+only).  Values are compared by equality and are represented by naturals. -/
+
+/-- the state of the class under construction -/
+structure DeclState where
+  /-- `_member_names_`: the canonical names, declaration order -/
+  names : List String := []
+  /-- the value of each canonical member -/
+  values : List Nat := []
+  /-- `__members__`: every name, canonical or alias, with the `index` of the member it denotes -/
+  members : List (String × Nat) := []
+  deriving Repr
+
+/-- position of the first element equal to `v` -/
+def valueIndex? : List Nat → Nat → Option Nat
+  | [], _ => none
+  | w :: ws, v => if w = v then some 0 else (valueIndex? ws v).map (· + 1)
+
+/-- one binding `name = value` of the class body -/
+def declStep (st : DeclState) (b : String × Nat) : DeclState :=
+  match valueIndex? st.values b.2 with
+  | some i => { st with members := st.members ++ [(b.1, i)] }     -- alias of the member of index i
+  | none =>
+    -- a new member: `Enum.__init__` gives it `index = len(_member_names_)`, then its name is appended
+    { names := st.names ++ [b.1], values := st.values ++ [b.2],
+      members := st.members ++ [(b.1, st.names.length)] }
+
+/-- the class body, binding after binding -/
+def declare (bindings : List (String × Nat)) : DeclState := bindings.foldl declStep {}
+
+/-- the enumeration a class body declares: its `names` table is `_member_names_` -/
+def declared (cid : Nat) (bindings : List (String × Nat)) : Enumeration := ⟨cid, (declare bindings).names⟩
+
+/-- `cls[name]` / `getattr(cls, name)`: the index of the member a name (canonical or alias) denotes -/
+def memberOf? (bindings : List (String × Nat)) (name : String) : Option Nat :=
+  ((declare bindings).members.find? (fun m => m.1 = name)).map (·.2)
+
 /-! ## Guards (`_guards.py`) -/
 
 def Elem.isInt : Elem → Bool | .int _ => true | _ => false
@@ -232,6 +276,115 @@ def EnumArray.take (a : EnumArray) (positions : List Nat) : Except String EnumAr
   match allOk (pick a.idx) positions with
   | .error m => .error m
   | .ok idx => .ok ⟨a.owner, idx⟩
+
+/-! ## The operators of `EnumArray` (`enum_array.py`): `==`, `!=`, the forbidden ones
+
+What formulas write: `housing == Housing.owner`, `status != Status.single`.  `n` is the number of
+members of the array's own `possible_values` (only the comparison with the enumeration class
+itself reads it).  -/
+
+/-- what a comparison returns: a boolean `ndarray`, or a Python / numpy scalar -/
+inductive CmpRes
+  | vec (bs : List Bool)
+  | scalar (b : Bool)
+  deriving DecidableEq, Repr
+
+/-- the right operand of `==` / `!=` -/
+inductive Operand
+  /-- `None` -/
+  | none_
+  /-- an `Enum` class (not an instance) with `k` members; `c` is what the class test compares -/
+  | cls (c : Nat) (k : Nat)
+  /-- one Python object: an `int`, a `str`, a member of some enumeration, anything else -/
+  | elem (x : Elem)
+  /-- a list / tuple / `ndarray` of integers -/
+  | ints (vs : List Int)
+  /-- a list / tuple / `ndarray` of `len` things an integer never equals (strings, `Enum`
+  instances, `None`): numpy compares element by element and finds no equality -/
+  | blind (len : Nat)
+  /-- another `EnumArray` (of whatever enumeration: only its indices are compared) -/
+  | arr (b : EnumArray)
+  deriving DecidableEq, Repr
+
+/-- length of `numpy.broadcast(x, y)` for two 1-d shapes; shapes that do not match raise -/
+def bcastLen (l k : Nat) : Except String Nat :=
+  if l = k then .ok l else if k = 1 then .ok l else if l = 1 then .ok k
+  else .error "ValueError: operands could not be broadcast together"
+
+/-- element-wise `x == y` with numpy broadcasting of 1-d operands -/
+def bcastEq {α β} (f : α → β → Bool) (xs : List α) (ys : List β) : Except String (List Bool) :=
+  if xs.length = ys.length then .ok (List.zipWith f xs ys)
+  else match ys with
+    | [y] => .ok (xs.map fun x => f x y)
+    | [] | _ :: _ :: _ =>
+      match xs with
+      | [x] => .ok (ys.map fun y => f x y)
+      | [] | _ :: _ :: _ => .error "ValueError: operands could not be broadcast together"
+
+/-- Python's `max(self)` over the items of a 1-d array (`none` for an empty one: `ValueError`) -/
+def maxIdx : List Nat → Option Nat
+  | [] => none
+  | i :: is => some (is.foldl Nat.max i)
+
+/-- `EnumArray.__eq__(self, other)`; an array whose `possible_values` is `None` is not modelled -/
+def eqOp (n : Nat) (a : EnumArray) : Operand → Except String CmpRes
+  -- `if other is None: return NotImplemented`; Python then falls back to identity: `False`
+  | .none_ => .ok (.scalar false)
+  -- `isinstance(other, type(Enum)) and other == self.possible_values`:
+  --   `view == indices[indices <= max(self)]`
+  | .cls c k =>
+    if c = a.owner then
+      match maxIdx a.idx with
+      | none => .error "ValueError: max() arg is an empty sequence"
+      | some mx =>
+        match bcastEq (fun i j => i == j) a.idx ((List.range n).filter fun j => decide (j ≤ mx)) with
+        | .error m => .error m
+        | .ok bs => .ok (.vec bs)
+    else
+      -- another class: numpy turns it into the object array of its members, none equal to an index
+      match bcastLen a.idx.length k with
+      | .error m => .error m
+      | .ok l => .ok (.vec (List.replicate l false))
+  -- `isinstance(other, Enum) and other.__class__ == self.possible_values`: `view == other.index`
+  | .elem (.member c i) =>
+    if c = a.owner then .ok (.vec (a.idx.map fun j => j == i))
+    else .ok (.vec (a.idx.map fun _ => false))
+  -- `view == other` by numpy
+  | .elem (.int v) => .ok (.vec (a.idx.map fun (j : Nat) => (j : Int) == v))
+  | .elem (.str _) => .ok (.vec (a.idx.map fun _ => false))
+  | .elem .other => .ok (.vec (a.idx.map fun _ => false))
+  | .ints vs =>
+    match bcastEq (fun (j : Nat) (v : Int) => (j : Int) == v) a.idx vs with
+    | .error m => .error m
+    | .ok bs => .ok (.vec bs)
+  | .blind k =>
+    match bcastLen a.idx.length k with
+    | .error m => .error m
+    | .ok l => .ok (.vec (List.replicate l false))
+  | .arr b =>
+    match bcastEq (fun i j => i == j) a.idx b.idx with
+    | .error m => .error m
+    | .ok bs => .ok (.vec bs)
+
+/-- `numpy.logical_not` -/
+def CmpRes.not : CmpRes → CmpRes
+  | .vec bs => .vec (bs.map (!·))
+  | .scalar b => .scalar (!b)
+
+/-- `EnumArray.__ne__`: `numpy.logical_not(self == other)` -/
+def neOp (n : Nat) (a : EnumArray) (o : Operand) : Except String CmpRes :=
+  match eqOp n a o with
+  | .error m => .error m
+  | .ok r => .ok r.not
+
+/-- the operators bound to `_forbidden_operation` -/
+inductive ForbiddenOp | add | mul | lt | le | gt | ge | and_ | or_
+  deriving DecidableEq, Repr
+
+/-- `__add__ = __mul__ = __lt__ = __le__ = __gt__ = __ge__ = __and__ = __or__ =
+_forbidden_operation`: raises `TypeError` whatever the operands -/
+def forbiddenOp (_op : ForbiddenOp) (_a : EnumArray) (_o : Operand) : Except String CmpRes :=
+  .error "TypeError: Forbidden operation"
 
 /-! ## Specification vocabulary (used by `Props/C15.lean`) -/
 
